@@ -27,6 +27,10 @@ class Lin(Counter):
         return " + ".join((f"{v}*" if v != 1 and k != "1" else "") + (str(v) if k == "1" else k) for k, v in sorted(self.items())) or "0"
 
 
+# single-assignment locals of generate_multipart that hold a piece of the part-header template (an f-string / a literal)
+_STR_LOCALS: Dict[str, ast.expr] = {}
+
+
 def _atom_len_of(e: ast.expr) -> str:
     t = ast.unparse(e)
     if isinstance(e, ast.Name) and e.id in STR_TYPED:
@@ -48,6 +52,8 @@ def lin_of(e: ast.expr, env: Dict[str, ast.expr]) -> Lin:
         a = e.args[0]
         if isinstance(a, ast.Call) and isinstance(a.func, ast.Name) and a.func.id == "str":
             return Lin({_atom_len_of(a.args[0]) if not (isinstance(a.args[0], ast.Name) and a.args[0].id in STR_TYPED) else f"|{a.args[0].id}|": 1})
+        if isinstance(a, ast.Name) and a.id in _STR_LOCALS:
+            return lin_of_fstring(_STR_LOCALS[a.id])  # a piece of the template held in a local: its length is the pieces' lengths
         if isinstance(a, ast.Name):
             return Lin({f"|{a.id}|": 1})
     raise Undecided(f"R2.1: length expression outside the linear fragment: {ast.unparse(e)}")
@@ -76,6 +82,8 @@ def lin_of_fstring(e: ast.expr) -> Lin:
         for v in e.values:
             if isinstance(v, ast.Constant):
                 r = r + Lin({"1": len(v.value)})
+            elif isinstance(v, ast.FormattedValue) and v.conversion == -1 and v.format_spec is None and isinstance(v.value, ast.Name) and v.value.id in _STR_LOCALS:
+                r = r + lin_of_fstring(_STR_LOCALS[v.value.id])
             elif isinstance(v, ast.FormattedValue) and v.conversion == -1 and v.format_spec is None:
                 r = r + Lin({_atom_len_of(v.value): 1})
             else:
@@ -441,6 +449,15 @@ def run(p: Program, rep: Report, tier: str) -> None:
     if len(ret) != 1 or not isinstance(ret[0].value, ast.Tuple) or len(ret[0].value.elts) != 2:
         raise Undecided("R2.1: generate_multipart no longer returns (content_length, header generator)")
     cl_expr, lam = ret[0].value.elts
+    _STR_LOCALS.clear()
+    _stores: Dict[str, int] = {}
+    for n_ in ast.walk(gmn):
+        if isinstance(n_, ast.Name) and isinstance(n_.ctx, ast.Store):
+            _stores[n_.id] = _stores.get(n_.id, 0) + 1
+    for st_ in walk_shallow(gmn):
+        if isinstance(st_, ast.Assign) and len(st_.targets) == 1 and isinstance(st_.targets[0], ast.Name) and _stores.get(st_.targets[0].id) == 1 \
+                and (isinstance(st_.value, ast.JoinedStr) or (isinstance(st_.value, ast.Constant) and isinstance(st_.value.value, str))):
+            _STR_LOCALS[st_.targets[0].id] = st_.value
     # content_length = <closing> + sum over the ranges of <per range>, however it is accumulated
     closing_formula, per_range_formula = _length_formula(gmn, cl_expr)
     lam = _generator_lambda(p, gm, gmn, lam)
